@@ -852,6 +852,10 @@ class FuncBitRotateLeft(ValueFunc):
     def execute(self, args, environment, pos):
         a = args.getInt("a").value
         n = args.getInt("n").value
+        if n < 0:
+            raise CklRuntimeError(
+                ValueString("ERROR"), "negative shift count", pos
+            )
         return ValueInt(((a << n) | (a >> (32 - n))) & 0xFFFFFFFF)
 
 
@@ -876,6 +880,10 @@ class FuncBitRotateRight(ValueFunc):
     def execute(self, args, environment, pos):
         a = args.getInt("a").value
         n = args.getInt("n").value
+        if n < 0:
+            raise CklRuntimeError(
+                ValueString("ERROR"), "negative shift count", pos
+            )
         return ValueInt(((a >> n) | (a << (32 - n))) & 0xFFFFFFFF)
 
 
@@ -900,6 +908,10 @@ class FuncBitShiftLeft(ValueFunc):
     def execute(self, args, environment, pos):
         a = args.getInt("a").value
         n = args.getInt("n").value
+        if n < 0:
+            raise CklRuntimeError(
+                ValueString("ERROR"), "negative shift count", pos
+            )
         return ValueInt((a << n) & 0xFFFFFFFF)
 
 
@@ -924,6 +936,10 @@ class FuncBitShiftRight(ValueFunc):
     def execute(self, args, environment, pos):
         a = args.getInt("a").value
         n = args.getInt("n").value
+        if n < 0:
+            raise CklRuntimeError(
+                ValueString("ERROR"), "negative shift count", pos
+            )
         return ValueInt(a >> n)
 
 
